@@ -215,27 +215,41 @@ fn glob_match(glob: &str, tail: &[&str], icase: bool) -> bool {
 type Pred = Box<dyn Fn(&[&str]) -> bool>;
 
 /// reference semantics of one pattern leaf; `Err` = the pattern must be rejected
-fn ref_leaf(k: &Kind, arg: &str, cwd: &[String], base: &str) -> Result<Pred, ()> {
+fn ref_leaf(k: &Kind, arg: &str, cwd: &[String], base: &str) -> Result<Pred, bool> {
+    let rej = |_: ()| false;
     let anchor = k.anchor;
     match k.syntax {
         Syntax::Path => {
-            let target = if k.cwd { resolve_cwd(cwd, arg, base)? } else { resolve_root(arg)? };
+            let target = if k.cwd { resolve_cwd(cwd, arg, base).map_err(rej)? } else { resolve_root(arg).map_err(rej)? };
             Ok(Box::new(move |p: &[&str]| match anchor {
                 Anchor::File => p.len() == target.len() && p.iter().zip(&target).all(|(a, b)| a == b),
                 Anchor::Prefix => p.len() >= target.len() && p.iter().zip(&target).all(|(a, b)| a == b),
             }))
         }
         Syntax::Glob => {
-            // leading literal part (raw `/`-separated components without glob characters — and, for the
-            // case-insensitive kinds, without letters) is a directory path; the rest is the glob
+            // Relative input: only the leading `.`/`..` navigation is resolved as a path; every other
+            // component (literal names included) belongs to the glob, which is matched as a whole against
+            // the tail below the anchor.  (So this does not replicate jj's literal-prefix split: a literal
+            // component must behave the same whether jj treats it as directory or as glob.)
+            // Absolute input: the literal directory part is whatever has no glob characters (and, for the
+            // case-insensitive kinds, no letters), as documented for the pattern kinds.
             let raw: Vec<&str> = arg.split_inclusive('/').collect();
             let icase = k.icase;
-            let n_lit = raw.iter().take_while(|c| !has_glob_char(c) && !(icase && c.chars().any(|ch| ch.is_ascii_alphabetic()))).count();
+            let n_lit = if arg.starts_with('/') {
+                raw.iter().take_while(|c| !has_glob_char(c) && !(icase && c.chars().any(|ch| ch.is_ascii_alphabetic()))).count()
+            } else {
+                raw.iter().take_while(|c| matches!(c.trim_end_matches('/'), "." | ".." | "")).count()
+            };
             let lit: String = raw[..n_lit].concat();
             let glob: String = raw[n_lit..].concat();
-            let dir = if k.cwd { resolve_cwd(cwd, &lit, base)? } else { resolve_root(&lit)? };
+            // Workspace-relative glob kinds with a leading `./` before further components: jj accepts or
+            // rejects depending on where its literal-prefix split falls (`root-glob:"./*"` and
+            // `root-glob-i:"./a"` are accepted, `root-glob:"./a"` is rejected like `root:"./a"`); the
+            // definition does not say, so no verdict on acceptance (the match set is not judged either).
+            if !k.cwd && arg.starts_with("./") && arg.trim_start_matches(|c| c == '.' || c == '/') != "" { return Err(true); }
+            let dir = if k.cwd { resolve_cwd(cwd, &lit, base).map_err(rej)? } else { resolve_root(&lit).map_err(rej)? };
             let gcomps: Vec<&str> = glob.split('/').filter(|c| !c.is_empty()).collect();
-            if glob.starts_with('/') || gcomps.iter().any(|c| *c == "..") || (gcomps.first() == Some(&".") && gcomps.len() > 1) { return Err(()); }
+            if glob.starts_with('/') || gcomps.iter().any(|c| *c == "..") || (gcomps.first() == Some(&".") && gcomps.len() > 1) { return Err(false); }
             let gcomps: Vec<String> = gcomps.into_iter().filter(|c| *c != ".").map(|c| c.to_string()).collect();
             let glob = gcomps.join("/");
             Ok(Box::new(move |p: &[&str]| {
@@ -252,12 +266,12 @@ fn ref_leaf(k: &Kind, arg: &str, cwd: &[String], base: &str) -> Result<Pred, ()>
 }
 
 enum R { None, All, Leaf(Pred), Neg(Box<R>), Un(Vec<R>), In(Box<R>, Box<R>), Di(Box<R>, Box<R>) }
-fn ref_build(t: &T, cwd: &[String], base: &str) -> Result<R, ()> {
+fn ref_build(t: &T, cwd: &[String], base: &str) -> Result<R, bool> {
     Ok(match t {
         T::None => R::None, T::All => R::All,
         T::Pat(k, arg, _) => R::Leaf(ref_leaf(k, arg, cwd, base)?),
         T::Neg(x) => R::Neg(Box::new(ref_build(x, cwd, base)?)),
-        T::Un(xs) => R::Un(xs.iter().map(|x| ref_build(x, cwd, base)).collect::<Result<Vec<_>, ()>>()?),
+        T::Un(xs) => R::Un(xs.iter().map(|x| ref_build(x, cwd, base)).collect::<Result<Vec<_>, bool>>()?),
         T::In(a, b) => R::In(Box::new(ref_build(a, cwd, base)?), Box::new(ref_build(b, cwd, base)?)),
         T::Di(a, b) => R::Di(Box::new(ref_build(a, cwd, base)?), Box::new(ref_build(b, cwd, base)?)),
     })
@@ -450,7 +464,7 @@ fn describe(t: &T) -> String {
 
 const BASE: &str = "/ws";
 
-fn one(out: &mut Out, uni: &mut Uni, cwd: &[String], src: &str, reference: Result<&R, ()>, what: &str) {
+fn one(out: &mut Out, uni: &mut Uni, cwd: &[String], src: &str, reference: Result<&R, bool>, what: &str) {
     let cwd_path: PathBuf = cwd.iter().fold(PathBuf::from(BASE), |p, c| p.join(c));
     let conv = RepoPathUiConverter::Fs { cwd: cwd_path, base: PathBuf::from(BASE) };
     let aliases = FilesetAliasesMap::new();
@@ -465,7 +479,8 @@ fn one(out: &mut Out, uni: &mut Uni, cwd: &[String], src: &str, reference: Resul
             out.impl_only();
             out.tally("parse", "error");
             match reference {
-                Err(()) => out.oracle_ok(),
+                Err(false) => out.oracle_ok(),
+                Err(true) => out.tally("reference", "unspecified"),
                 Ok(_) => out.oracle_fail("fileset:valid-expression-rejected", format!("{ctx}: {}", e.replace('\n', " "))),
             }
         }
@@ -493,7 +508,8 @@ fn one(out: &mut Out, uni: &mut Uni, cwd: &[String], src: &str, reference: Resul
             if n_match > 0 && n_match < uni.paths.len() { out.nontrivial((&req, src)); }
             out.tally("matching-paths", if n_match == 0 { "none" } else if n_match == uni.paths.len() { "all" } else { "some" });
             match reference {
-                Err(()) => out.oracle_fail("fileset:invalid-expression-accepted", format!("{ctx}: parsed to {expr:?}")),
+                Err(false) => out.oracle_fail("fileset:invalid-expression-accepted", format!("{ctx}: parsed to {expr:?}")),
+                Err(true) => out.tally("reference", "unspecified"),
                 Ok(rf) => {
                     let bad = uni.paths.iter().enumerate().find(|(i, p)| ref_eval(rf, &uni.strs(p)) != matches[*i]);
                     match bad {
@@ -522,12 +538,12 @@ pub fn run(cfg: &Cfg, out: &mut Out) {
                 let t = T::Pat(*k, a.to_string(), q);
                 let rf = ref_build(&t, &cwd, BASE);
                 let src = text(&t, &mut r);
-                one(out, &mut uni, &cwd, &src, rf.as_ref().map_err(|_| ()), &describe(&t));
+                one(out, &mut uni, &cwd, &src, rf.as_ref().map_err(|e| *e), &describe(&t));
             } } }
         }
         // malformed stream: unknown kind, syntax errors, bad globs
         for src in ["nosuch:a", "a &", "| a", "glob:\"[a\"", "root:\"/a\"", "a b", "glob:", "all(a)", "none(", "root-glob:\"a/../*\"", "foo()"] {
-            one(out, &mut uni, &[], src, Err(()), "malformed stream");
+            one(out, &mut uni, &[], src, Err(false), "malformed stream");
         }
         out.note("systematic: 18 kinds x 28 arguments x 2 quotings x 3 cwds over names a,B,ab depth 3; 11 malformed texts; then random expressions of depth <= 4".to_string());
     }
@@ -547,7 +563,7 @@ pub fn run(cfg: &Cfg, out: &mut Out) {
             let rf = ref_build(&t, &cwd, BASE);
             let src = text(&t, &mut r);
             uni.names.truncate(k);
-            one(out, &mut uni, &cwd, &src, rf.as_ref().map_err(|_| ()), &describe(&t));
+            one(out, &mut uni, &cwd, &src, rf.as_ref().map_err(|e| *e), &describe(&t));
         }
     }
 }
